@@ -130,6 +130,52 @@ def csv_roundtrip(nrows, enc, blocked, shapes=None, pdsmax=200):
     return h
 
 
+def cli_entry_points():
+    """the command entry points (cli_run) on a virtual file system: files are opened in the right mode and with the encodings the user asked
+    for, and the rows survive"""
+    import contextlib
+    import io as _io
+
+    def h():
+        core.FUEL.set(40)
+        install_dateutil_stub()
+        m = M()
+        cfgs = m.config.config['bit_config']
+        in_enc = choose('csv_in_encoding', [None, 'latin_1', 'utf-16'])
+        out_enc = choose('csv_out_encoding', [None, 'latin_1', 'cp1252', 'utf-16'])
+        ipm_enc = choose('ipm_encoding', [None, 'cp500'])
+        noblock = choose('no1014blocking', [False, True])
+        row = {'MTI': '1240'}
+        exp = {}
+        for c in ['DE2', 'DE4', 'DE38']:
+            row[c], exp[c], _ = cell(c, cfgs, '_cli')
+        cols = list(row)
+        rp = {'kind': 'cli', 'args': {'in_enc': in_enc, 'out_enc': out_enc, 'ipm_enc': ipm_enc, 'noblock': noblock}}
+        models.VFS.reset()
+        models.VFS.files['in.csv'] = models.CsvIn(cols, [row])
+        with contextlib.redirect_stdout(_io.StringIO()):
+            with guard('mci_csv_to_ipm.cli_run', 'C20/cli-exception', rp):
+                m.mci_csv_to_ipm.cli_run(in_filename='in.csv', out_filename='out.ipm', in_encoding=in_enc, out_encoding=ipm_enc,
+                                         no1014blocking=noblock, config_file=None, debug=False)
+            with guard('mci_ipm_to_csv.cli_run', 'C20/cli-exception', rp):
+                rc = m.mci_ipm_to_csv.cli_run(in_filename='out.ipm', out_filename='back.csv', in_encoding=ipm_enc, out_encoding=out_enc,
+                                              no1014blocking=noblock, config_file=None, debug=False)
+        require(rc is None, 'extraction of the file just written reported an error', key='C20/cli', replay=rp)
+        opened = {(o['name'], o['mode'][0]): o for o in models.VFS.opened}
+        require(opened.get(('in.csv', 'r'), {}).get('encoding') == in_enc, 'input CSV not opened with the requested --in-encoding', key='C20/cli-encoding', replay=rp)
+        require(opened.get(('back.csv', 'w'), {}).get('encoding') == out_enc, 'output CSV not opened with the requested --out-encoding', key='C20/cli-encoding', replay=rp)
+        out = models.VFS.files.get('back.csv')
+        require(out is not None and len(out.rows) == 1, 'one row expected', key='C20/cli', replay=rp)
+        for c, v in exp.items():
+            g = out.rows[0].get(c)
+            if isinstance(v, (int, SInt)) and not isinstance(v, bool):
+                require(isinstance(g, (int, SInt)) and s_eq(g, v), 'column %s changed' % c, key='C20/cli', replay=rp)
+            else:
+                req_eq(g, v, 'column %s changed' % c, key='C20/cli', replay=rp)
+        return {'sample': rp['args'], 'replay': rp}
+    return h
+
+
 def obligations(tier):
     q = tier == 'quick'
     obs = []
@@ -141,6 +187,9 @@ def obligations(tier):
     obs.append(Ob('rows2/cp500/vbs', csv_roundtrip(2, 'cp500', False, shapes=SHAPES20[2:] if q else None), 1800, 'two rows, any two shapes', _funcs))
     obs.append(Ob('rows1-long/latin_1/1014', csv_roundtrip(1, 'latin_1', True, shapes=[['DE2', 'PDS0023', 'PDS0052', 'PDS0148']], pdsmax=992), 1200,
                   'one row with three PDS columns of 1..992 characters each (record up to ~3000 bytes over several blocks)', _funcs))
+    obs.append(Ob('cli/entry-points', cli_entry_points(), 600,
+                  'cli_run of both tools on a virtual file system: every combination of CSV input encoding, CSV output encoding, IPM encoding and blocking; one row', _funcs,
+                  'argparse parsing and the operating system file layer'))
     if not q:
         obs.append(Ob('rows3/cp037/1014', csv_roundtrip(3, 'cp037', True, shapes=SHAPES20[:3]), 3000, 'three rows', _funcs))
     return obs
